@@ -40,11 +40,33 @@ def const_dict(chk, tree, name, rel):
     chk.broken(f"anchor table {name} missing from {rel}")
 
 
+ALL_OPS = ("<", "<=", ">", ">=", "==", "!=", "~=", "===", "in", "not in")
+
+
+def probe_reflect_map(chk, it):
+    """operator -> reflected operator, obtained by *calling* dep_logic.utils.get_reflect_op through the interpreter for every operator
+    of the marker grammar (the private table behind it may be renamed, split or replaced by an if-chain without changing behaviour)."""
+    from .absint import PyRaise, AnalysisError
+    utils = it.module("dep_logic.utils")
+    f = it.resolve(utils.ns.get("get_reflect_op"))
+    if f is None:
+        m = it.resolve(utils.ns.get("_op_reflect_map"))
+        chk.require(isinstance(m, dict) and m, "anchor dep_logic.utils:get_reflect_op (and the table _op_reflect_map) missing")
+        return dict(m)
+    out = {}
+    for op in ALL_OPS:
+        try:
+            out[op] = it.call(f, [op], {})
+        except PyRaise:
+            pass            # operator unknown to the table
+    chk.require(out, "get_reflect_op answers for no operator of the marker grammar")
+    return out
+
+
 def reflect_map_involution(chk, rid):
     from .absint import Interp
     it = Interp(str(chk.src))
-    m = it.resolve(it.module("dep_logic.utils").ns.get("_op_reflect_map"))
-    chk.require(isinstance(m, dict) and m, "anchor dep_logic.utils:_op_reflect_map missing")
+    m = probe_reflect_map(chk, it)
     chk.instance(rid)
     for k, v in m.items():
         if m.get(v) != k:
